@@ -46,8 +46,8 @@ theorem parseUnix2_no_panic (hdr : Bytes) : parseUnix2 hdr ≠ .panic := by
   split
   · intro e; cases e
   · rename_i hlen
-    obtain ⟨u, hu⟩ := le16At_some (b := hdr) (i := 4) (by omega)
-    obtain ⟨g, hg⟩ := le16At_some (b := hdr) (i := 6) (by omega)
+    obtain ⟨u, hu⟩ := le16At_some (b := hdr) (i := 0) (by omega)
+    obtain ⟨g, hg⟩ := le16At_some (b := hdr) (i := 2) (by omega)
     rw [hu, hg]
     simp only [orPanic]
     intro e; cases e
